@@ -32,9 +32,14 @@ def main():
         mod.build(sess)
         code = sess.finish()
     except EngineError as e:
-        print(f'CHECKER-ERROR property={prop} engine cannot process the code: {e}')
-        traceback.print_exc()
-        code = EXIT_CHECKER
+        # the (changed) code is outside the executor's subset: a bounded native check of the same contract stands in,
+        # labelled bounded; it can only confirm a violation with a concrete input or report that it found none
+        print(f'ENGINE-LIMIT property={prop} the executor cannot process the code: {e}')
+        if hasattr(mod, 'fallback'):
+            code = sess.finish_fallback(str(e), mod.fallback)
+        else:
+            traceback.print_exc()
+            code = EXIT_CHECKER
     sys.exit(code)
 
 
